@@ -217,12 +217,12 @@ func (grid *RegularGrid) IntersectQuad(r Ray) (*Quad, float32) {
 	for {
 		hitPoint := Add(newRay.From, Mul(rayDir, t))
 
-		cellX := (uint)(math.Floor((float64)(hitPoint.x-grid.Min.x) / (float64)(grid.Resolution)))
-		cellY := (uint)(math.Floor((float64)(hitPoint.z-grid.Min.z) / (float64)(grid.Resolution)))
+		cellX := (int)(math.Floor((float64)(hitPoint.x-grid.Min.x) / (float64)(grid.Resolution)))
+		cellY := (int)(math.Floor((float64)(hitPoint.z-grid.Min.z) / (float64)(grid.Resolution)))
 
 		// clamp to bounds
-		cellX = (uint)(math.Min((float64)(cellX), (float64)(len(grid.Grid[0])-1)))
-		cellX = (uint)(math.Min((float64)(cellY), (float64)(len(grid.Grid)-1)))
+		cellX = (int)(math.Max(0, math.Min((float64)(cellX), (float64)(len(grid.Grid[0])-1))))
+		cellY = (int)(math.Max(0, math.Min((float64)(cellY), (float64)(len(grid.Grid)-1))))
 
 		tMin := (float32)(math.Inf(1))
 		var resultQuad *Quad
